@@ -24,6 +24,7 @@ type credCase struct {
 		Host  string `json:"host"`
 		Port  string `json:"port"`
 		Shape string `json:"shape"`
+		Prior string `json:"prior"`
 	} `json:"req"`
 	Out struct {
 		SiteAuth  string `json:"siteAuth"`
@@ -161,6 +162,23 @@ func (pe *pipeEnv) credCase(c *credCase) map[string]any {
 	hp := host
 	if c.Req.Port == "8080" {
 		hp = host + ":8080"
+	}
+	if c.Req.Prior == "otherScheme" {
+		// the same host under the other scheme, asked of the same instance just before (a connection of its own)
+		pc, err := dialRaw(pe.f.addr)
+		if err != nil {
+			fatal("dial proxy: %v", err)
+		}
+		if c.Req.Kind == "GET" {
+			// an https URL in absolute form: the proxy's transport speaks TLS to the origin itself
+			pc.send([]byte("GET https://" + host + "/prior HTTP/1.1\r\nHost: " + host + "\r\n\r\n"))
+			pc.recv("GET", 8*time.Second)
+		} else {
+			pc.send([]byte("GET http://" + host + "/prior HTTP/1.1\r\nHost: " + host + "\r\n\r\n"))
+			pc.recv("GET", 8*time.Second)
+		}
+		pc.close()
+		time.Sleep(2 * time.Millisecond)
 	}
 	cl, err := dialRaw(pe.f.addr)
 	if err != nil {
